@@ -429,7 +429,7 @@ type c14State struct {
 }
 
 func c14MmnCode(pat string) string {
-	may, errText := pkglint.VerifMayMatchNumber(pat)
+	may, errText := pkglint.VerifMayMatchNumber14(pat)
 	switch {
 	case errText != "":
 		return "0"
